@@ -314,7 +314,10 @@ class UsesPaths(Suite):
     def gen(self, rng, tier):
         return ([dict(kind=k, form=f, ns=n, depth=d) for k in ('config', 'context') for f in ('scalar', 'list')
                  for n in (False, True) for d in (1, 2)] +
-                [dict(kind='tasks', form=f, ns=False, depth=d) for f in ('scalar', 'list') for d in (1, 2)])
+                [dict(kind='tasks', form=f, ns=False, depth=d) for f in ('scalar', 'list') for d in (1, 2)] +
+                # the namespace after `as` is a placeholder, or one placeholder supplies the whole entry
+                [dict(kind=k, form=f, ns=True, depth=1, spell=sp) for k in ('config', 'context') for f in ('scalar', 'list')
+                 for sp in ('ns_placeholder', 'whole_entry')])
 
     def run_impl(self, case):
         import json as _json
@@ -334,7 +337,7 @@ class UsesPaths(Suite):
 
             def wrap(ref):
                 return ref if case['form'] == 'scalar' else [ref]
-            gv = {'DIR': str(sub), 'NAME': 'inner'}
+            gv = {'DIR': str(sub), 'NAME': 'inner', 'NS': 'n', 'CTX_ENTRY': f'{sub}/ctx.json as n', 'CFG_ENTRY': f'{sub}/mid.json as n'}
             return self.build(case, tmp, sub, mod, wrap, ns, gv)
         finally:
             pl.drop_module(mod)
@@ -358,7 +361,8 @@ class UsesPaths(Suite):
                     (sub / 'mid.json').write_text(_json.dumps({'uses': wrap('{DIR}/{NAME}.json')}))
                 else:
                     (sub / 'mid.json').write_text(_json.dumps(leaf_doc))
-                cfg = Config(tmp / 'data', name='main', data={'uses': wrap('{DIR}/mid.json' + ns)}, global_vars=gv)
+                entry = {'ns_placeholder': '{DIR}/mid.json as {NS}', 'whole_entry': '{CFG_ENTRY}'}.get(case.get('spell'), '{DIR}/mid.json' + ns)
+                cfg = Config(tmp / 'data', name='main', data={'uses': wrap(entry)}, global_vars=gv)
             else:
                 # the config declares x = 0; the context uses {DIR}/ctx.json [as n] (-> {DIR}/{NAME}.json) which sets x = 5
                 val = {'x': 5}
@@ -369,7 +373,8 @@ class UsesPaths(Suite):
                     (sub / 'ctx.json').write_text(_json.dumps(val))
                 (sub / 'leafcfg.json').write_text(_json.dumps({'tasks': [f'{mod}.Leaf'], 'x': 0}))
                 data = {'uses': str(sub / 'leafcfg.json') + ns}
-                cfg = Config(tmp / 'data', name='main', data=data, context={'uses': wrap('{DIR}/ctx.json' + ns)}, global_vars=gv)
+                entry = {'ns_placeholder': '{DIR}/ctx.json as {NS}', 'whole_entry': '{CTX_ENTRY}'}.get(case.get('spell'), '{DIR}/ctx.json' + ns)
+                cfg = Config(tmp / 'data', name='main', data=data, context={'uses': wrap(entry)}, global_vars=gv)
             chain = cfg.chain()
             name = ('n::' if case['ns'] else '') + 'leaf'
             return dict(x=pl.to_spec(chain[name].params.x), tasks=sorted(chain.tasks))
